@@ -136,27 +136,29 @@ class AnyOf(MultiFieldWrapper, Field, metaclass=_JSONSchemaDraft4ReuseMeta):
         if getattr(instance, "_trust_supplied_values", False):
             super().__set__(instance, value)
             return
-        matched = False
-        scratch = None
+        matched = None
         for field in self.get_fields():
             setattr(field, "_name", self._name)
-            scratch = _scratch_instance(instance)
             try:
-                field.__set__(scratch, value)
-                matched = True
+                field.__set__(_scratch_instance(instance), value)
+                matched = field
                 break
             except TypeError:
                 pass
             except ValueError:
                 pass
-        if not matched:
+        if matched is None:
             prefix = f"{self._name}: " if self._name else ""
             valid_type_names = ", ".join([_get_type_name(f) for f in self.get_fields()])
             raise ValueError(
                 f"{prefix}{wrap_val(value)} of type {value.__class__.__name__} did not match"
                 f" any field option. Valid types are: {valid_type_names}."
             )
-        super().__set__(instance, getattr(scratch, self._name))
+        # the matched option stores the value on the real instance: what it builds (e.g. the
+        # wrapper of an Array/Map/Deque option, which re-validates and guards every mutation)
+        # must belong to that instance, not to the scratch structure
+        matched.__set__(instance, value)
+        super().__set__(instance, instance.__dict__[self._name])
 
     def __str__(self):
         return _str_for_multioption_field(self)
